@@ -129,6 +129,9 @@ func termRelease() {
 	}
 	internLog = internLog[:0]
 	internLogging = false
+	if len(knownBitsMemo) > 0 {
+		knownBitsMemo = map[*Term][2]uint64{}
+	}
 }
 
 func Sym(name, srt string) *Term   { return intern(&Term{Op: "sym", Name: name, Sort: srt}) }
@@ -368,6 +371,18 @@ func Eq(a, b *Term) *Term {
 	}
 	if v, ok := constEq(a, b); ok {
 		return BoolLit(v)
+	}
+	// known bits that differ from a literal decide a disequality
+	if isBVSort(a.Sort) && (a.Op == "bv") != (b.Op == "bv") {
+		x, l := a, b
+		if a.Op == "bv" {
+			x, l = b, a
+		}
+		if widthOf(x) <= 64 && l.IV.IsUint64() {
+			if km, kv := knownBits(x, 0); km != 0 && (kv^l.IV.Uint64())&km != 0 {
+				return False
+			}
+		}
 	}
 	if a.Sort == SBool {
 		if a.IsTrue() {
@@ -623,7 +638,87 @@ func BVBin(op string, a, b *Term) *Term {
 	if b.Op == "bv" && a.Op == "ite" && iteLeavesConst(a, 64) {
 		return Ite(a.Args[0], BVBin(op, a.Args[1], b), BVBin(op, a.Args[2], b))
 	}
-	return App(op, a.Sort, a, b)
+	r := App(op, a.Sort, a, b)
+	// known-bits folding: (C | (x & ~K)) & M with M inside K is the constant C & M, etc.
+	if op == "bvand" || op == "bvor" || op == "bvlshr" || op == "bvshl" || op == "bvxor" {
+		if km, kv := knownBits(r, 0); km == maskU(w) {
+			return BVLit(kv, w)
+		}
+	}
+	return r
+}
+
+func maskU(w int) uint64 {
+	if w >= 64 {
+		return ^uint64(0)
+	}
+	return (uint64(1) << uint(w)) - 1
+}
+
+var knownBitsMemo = map[*Term][2]uint64{}
+
+// knownBits returns (mask, value): the bits of a bit-vector term whose value is the same under every
+// assignment, computed structurally (and, or, xor, not, shifts by constants, zero extension).
+func knownBits(t *Term, depth int) (uint64, uint64) {
+	w := widthOf(t)
+	full := maskU(w)
+	if t.Op == "bv" {
+		return full, t.IV.Uint64() & full
+	}
+	if depth > 12 || len(t.Args) == 0 {
+		return 0, 0
+	}
+	if r, ok := knownBitsMemo[t]; ok {
+		return r[0], r[1]
+	}
+	var km, kv uint64
+	switch t.Op {
+	case "bvand":
+		am, av := knownBits(t.Args[0], depth+1)
+		bm, bv := knownBits(t.Args[1], depth+1)
+		zero := (am &^ av) | (bm &^ bv)
+		one := (am & av) & (bm & bv)
+		km, kv = zero|one, one
+	case "bvor":
+		am, av := knownBits(t.Args[0], depth+1)
+		bm, bv := knownBits(t.Args[1], depth+1)
+		one := (am & av) | (bm & bv)
+		zero := (am &^ av) & (bm &^ bv)
+		km, kv = zero|one, one
+	case "bvxor":
+		am, av := knownBits(t.Args[0], depth+1)
+		bm, bv := knownBits(t.Args[1], depth+1)
+		km = am & bm
+		kv = (av ^ bv) & km
+	case "bvnot":
+		am, av := knownBits(t.Args[0], depth+1)
+		km, kv = am, ^av&am
+	case "bvshl", "bvlshr":
+		if t.Args[1].Op == "bv" && t.Args[1].IV.IsUint64() {
+			n := t.Args[1].IV.Uint64()
+			am, av := knownBits(t.Args[0], depth+1)
+			if n >= uint64(w) {
+				km, kv = full, 0
+			} else if t.Op == "bvshl" {
+				km = ((am << n) | maskU(int(n))) & full
+				kv = (av << n) & full
+			} else {
+				km = ((am >> n) | (full &^ (full >> n))) & full
+				kv = av >> n
+			}
+		}
+	default:
+		if strings.HasPrefix(t.Op, "(_ zero_extend") {
+			wa := widthOf(t.Args[0])
+			am, av := knownBits(t.Args[0], depth+1)
+			km = am | (full &^ maskU(wa))
+			kv = av
+		}
+	}
+	km &= full
+	kv &= km
+	knownBitsMemo[t] = [2]uint64{km, kv}
+	return km, kv
 }
 
 func BVCmp(op string, a, b *Term) *Term { // bvult bvule bvslt bvsle
